@@ -43,7 +43,7 @@ impl MethodAttrs {
             }
 
             Ok(method_attrs)
-        });
+        })?;
         Ok(attrs_result.unwrap_or_default())
     }
 }
